@@ -1,25 +1,77 @@
-//! C15 — see /verif/DESIGN.md §3.
-use vf_core::{Args, Ctx};
+//! C15 — scalar and fixed-point types encode, convert and round exactly as
+//! specified. See /verif/DESIGN.md §3.
+//!
+//! Oracles are exact: integer arithmetic in i64/i128, rationals rounded half
+//! away from zero, floats decomposed into mantissa and exponent. Runs under
+//! both profiles: `rel` decides values with the shipping (wrapping) semantics,
+//! `strict` additionally treats a panic on operands whose exact result is
+//! representable as a failure.
+
+pub mod binary;
+pub mod common;
+pub mod otround;
+pub mod small;
+pub mod unary32;
+
+use vf_core::{Args, Ctx, PanicPolicy};
 
 pub const REPLAY: Option<fn(&mut Ctx, &Args, &serde_json::Value, Option<&[u8]>)> = None;
 
 pub fn run(ctx: &mut Ctx, _args: &Args) {
-    ctx.rule = "pipeline smoke test".into();
-    use font_types::{BigEndian, F2Dot14};
-    for v in 0..=u16::MAX {
-        if !ctx.mine(v as usize) {
-            continue;
+    ctx.policy = PanicPolicy::Any;
+    ctx.rule = "a case is one (type, operation, operand) evaluation decided by an exact oracle (cases whose exact result is not \
+                representable are not compared and not counted as non-trivial); distinct = distinct (type, operation, operand shape) \
+                classes, shape = signs and bit lengths of the operands, position of the exact result relative to the rounding grid \
+                (exact / below half / tie / above half) and kind of expectation (value / saturation); at most 150000 per shard"
+        .into();
+    ctx.level = "exhaustive sub-spaces + exploration".into();
+    ctx.assumptions = vec![
+        "F26Dot6 `*` and `/` are FreeType-style FT_MulFix/FT_DivFix on raw bits (scale 2^16), as the shared implementation macro documents; the oracle follows that on raw bits".into(),
+        "At exact ties float->fixed conversions may return either neighbour (the property says 'round to nearest'); everywhere else the nearest value is required".into(),
+        "Division by zero: MAX for a positive numerator, -MAX or MIN for a negative one, any of them for 0/0".into(),
+        "OtRound is checked on inputs for which x + 0.5 is exact in the float type".into(),
+        "Results that are not representable in the target type (e.g. -MIN, round() beyond MAX) are outside the property".into(),
+    ];
+    ctx.exhaustive = Some(true);
+    ctx.extra.insert(
+        "exhaustive_part".into(),
+        serde_json::json!("every 8/16/24-bit pattern of every scalar type; thorough: every 32-bit pattern of Fixed and F26Dot6 for the unary conversions"),
+    );
+    let mut acc = common::Acc::new();
+    let only = std::env::var("VF_C15_ONLY").unwrap_or_default();
+    let t = |ctx: &mut Ctx, what: &str, t0: f64| {
+        let dt = ctx.elapsed_s() - t0;
+        if std::env::var("VF_TIMING").is_ok() {
+            eprintln!("c15 timing: {:<12} {:8.2}s", what, dt);
         }
-        ctx.eval();
-        let be: BigEndian<u16> = v.into();
-        if be.get() != v {
-            ctx.violation("be-u16", serde_json::json!({"v": v}), None);
-        }
-        let f = F2Dot14::from_bits(v as i16);
-        if F2Dot14::from_f32(f.to_f32()) != f {
-            ctx.violation("f2dot14-f32", serde_json::json!({"v": v}), None);
-        }
-        ctx.nontrivial(v as u64);
+        ctx.count(&format!("wall_ms:{}", what), (dt * 1000.0) as u64);
+    };
+    if only.is_empty() || only == "small" {
+        let t0 = ctx.elapsed_s();
+        small::run(ctx, &mut acc);
+        acc.flush(ctx);
+        t(ctx, "small", t0);
     }
-    ctx.sample(serde_json::json!({"type": "u16", "value": 0x1234}));
+    if only.is_empty() || only == "unary32" {
+        let t0 = ctx.elapsed_s();
+        unary32::run(ctx, &mut acc);
+        acc.flush(ctx);
+        t(ctx, "unary32", t0);
+    }
+    if only.is_empty() || only == "binary" {
+        let t0 = ctx.elapsed_s();
+        binary::run(ctx, &mut acc);
+        acc.flush(ctx);
+        t(ctx, "binary", t0);
+    }
+    if only.is_empty() || only == "otround" {
+        let t0 = ctx.elapsed_s();
+        otround::run(ctx, &mut acc);
+        acc.flush(ctx);
+        t(ctx, "otround", t0);
+    }
+    ctx.sample(serde_json::json!({"kind": "Fixed mul", "case": "0x00018000 * 0x00018000 = 2.25 exactly -> 0x00024000"}));
+    ctx.sample(serde_json::json!({"kind": "Fixed div tie", "case": "0x00000001 / 0x00020000: exact 0.5 ulp -> rounds away from zero to 0x00000001"}));
+    ctx.sample(serde_json::json!({"kind": "Int24::new", "case": "0x00800000 saturates to 0x7fffff; checked_new gives None"}));
+    ctx.sample(serde_json::json!({"kind": "F2Dot14::from_f32", "case": "(v + 0.75) / 16384 must give v + 1 for every v"}));
 }
